@@ -304,6 +304,25 @@ def f_indexed(p):
     return n
 
 
+def f_facts(p):
+    # relations defined by facts written in the program text, by facts and rules, and by facts and recursive rules
+    r = p.r
+    a = p.fresh("fa")
+    p.decl(a, [("x", "number"), ("s", "symbol")], p.repr_for(2))
+    for i in range(r.randrange(1, 6)):
+        p.rule('%s(%d,"f%d").' % (a, r.randrange(50), i))
+    b = p.fresh("fb")
+    p.decl(b, [("x", "number")], p.repr_for(1))
+    for i in range(r.randrange(1, 5)):
+        p.rule("%s(%d)." % (b, 200 + i))
+    p.rule("%s(x+1) :- n1(x), x > 2." % b)
+    c = p.fresh("fc")
+    p.decl(c, [("x", "number")])
+    p.rule("%s(%d)." % (c, r.randrange(6)))
+    p.rule("%s(y) :- %s(x), e1(x,y)." % (c, c))
+    return a
+
+
 def f_exists_idx(p):
     # PARALLEL IF EXISTS ... ON INDEX ... WHERE <condition on two attributes of the probed tuple>, over a large index range
     r = p.r
@@ -361,7 +380,7 @@ def f_index_brie(p):
     return a
 
 
-FRAGMENTS = [f_exists, f_exists_idx, f_index_brie, f_outer_aggr2, f_filter, f_join, f_join3, f_tc, f_mutual, f_negation, f_aggr, f_outer_aggr, f_strings, f_records, f_adt, f_eqrel, f_multi,
+FRAGMENTS = [f_exists, f_exists_idx, f_facts, f_index_brie, f_outer_aggr2, f_filter, f_join, f_join3, f_tc, f_mutual, f_negation, f_aggr, f_outer_aggr, f_strings, f_records, f_adt, f_eqrel, f_multi,
              f_arith, f_indexed]
 
 
